@@ -1,6 +1,7 @@
 import SE.Proofs.SafetyGather
 import SE.Proofs.SuffixFree
 import SE.Proofs.HelpUniform
+import SE.Proofs.AvoidsPre
 import SE.Spec.FloatLaws
 /-
 C03 — Every scrape succeeds and is a consistent, parseable exposition (partial by necessity).
@@ -34,7 +35,18 @@ family, agreement with pre-registered families, no `_sum/_count/_bucket` suffix 
   by `preregistered_name_collision` (`gather_ok_not_invariant`) — the only open class; restricted to
   `p.reg.pre = []` the statement holds (`gather_ok_invariant_without_preregistered`). The two classes that
   used to be open besides it are closed: a summary `x` next to a summary `x_sum`
-  (`observer_companion_now_refused`) and the help mismatch (`help_mismatch_repaired`).
+  (`observer_companion_now_refused`) and the help mismatch (`help_mismatch_repaired`);
+* **`scrape_succeeds_if_names_avoid_preregistered`** says exactly when the pre-registered families matter: from
+  a registry without statsd metrics whose pre-registered families scrape fine by themselves, after EVERY history
+  the scrape succeeds provided every statsd metric `AvoidsPre` (SE/Spec/Registry.lean) the pre-registered
+  families — its name is not that of a pre-registered family, no pre-registered family is named like one of its
+  `_sum/_count/_bucket` companion series, and it is not named like a companion series of a pre-registered summary
+  or histogram (`scrape_succeeds_if_live_names_avoid_preregistered`: it is enough to ask this of the metrics that
+  have a series). So the open finding is precisely: the scrape fails ONLY IF a client-chosen (mapped, escaped) metric
+  name coincides with, or is a companion of, a family another collector exposes — or the other way round. Both
+  kinds of clause are needed (`avoidsPre_violated_by_name_collision`, `preregistered_suffix_collision`,
+  `preregistered_suffix_collision'`; in general the suffix clauses are necessary for a healthy scrape,
+  `scrape_ok_only_if_clear_of_companions`), and the hypotheses are satisfiable (`avoiding_names_scrape_fine`).
 
 Not covered (outside the models): the text encoder itself (escaping of help and label values, float
 formatting), and label-name *syntax* for tag keys (they are `specEscape`d in the line parser; see C15).
@@ -259,6 +271,58 @@ theorem gather_ok_invariant_without_preregistered :
       p'.reg.gatherOk = true :=
   fun _ _ rx p p' ops h0 hpre _ h => scrape_succeeds_without_preregistered rx p p' ops h0 hpre h
 
+/-! ## with pre-registered families -/
+
+/-- a registry without statsd metrics is its pre-registered families and nothing else -/
+theorem reg_eq_of_no_metrics {r : Reg V} (h : r.metrics = []) : r = { metrics := [], pre := r.pre } := by
+  obtain ⟨ms, pre⟩ := r
+  simp only at h
+  subst h
+  rfl
+
+/-- **The scrape succeeds after every history in which the statsd metric names stay clear of the pre-registered
+    families.** From a registry without statsd metrics whose pre-registered families (the exporter's own
+    `statsd_exporter_*` metrics, `go_*`, `process_*`, …) scrape fine by themselves (`hp`), after every history (event
+    batches, sweeps, clock changes, reloads, in any order): if every metric in the registry `AvoidsPre` the
+    pre-registered families — they are the same before and after, `pre_runOps` — then `Gather` succeeds.
+
+    This makes the open finding `preregistered_name_collision` precise: after any history the scrape fails ONLY IF
+    some client-chosen (mapped, escaped) metric name coincides with, or is a `_sum`/`_count`/`_bucket` companion of,
+    a family another collector exposes — or the other way round (a pre-registered family is named like a companion
+    series of a statsd summary or histogram). Nothing else the clients, the mapping configuration(s), the clock or
+    the order of operations do can break it. Both kinds of clause are needed: `avoidsPre_violated_by_name_collision`,
+    `preregistered_suffix_collision`; and the hypotheses are satisfiable: `avoiding_names_scrape_fine`. -/
+theorem scrape_succeeds_if_names_avoid_preregistered (rx : Rx) (p p' : Pipe V) (ops : List (PipeOp V))
+    (h0 : p.reg.metrics = []) (hp : p.reg.gatherOk = true) (h : runOps rx p ops = some (.ok p'))
+    (hav : ∀ m ∈ p'.reg.metrics, AvoidsPre p'.reg.pre m.name m.ty = true) : p'.reg.gatherOk = true := by
+  refine gatherOk_of_invariants_pre_all
+    (SuffixFree_runOps rx ops (wf_suffixFree_of_no_metrics h0).1 (wf_suffixFree_of_no_metrics h0).2 h).2
+    (help_uniform_history rx p p' ops h0 h) ?_ hav
+  rw [pre_runOps rx ops h, ← reg_eq_of_no_metrics h0]
+  exact hp
+
+/-- the same, asking only the metrics that have a series — the families `Gather` actually collects — to stay
+    clear of the pre-registered families (a weaker hypothesis: a metric entry whose series were all swept away
+    exposes nothing) -/
+theorem scrape_succeeds_if_live_names_avoid_preregistered (rx : Rx) (p p' : Pipe V) (ops : List (PipeOp V))
+    (h0 : p.reg.metrics = []) (hp : p.reg.gatherOk = true) (h : runOps rx p ops = some (.ok p'))
+    (hav : ∀ m ∈ p'.reg.metrics, m.series.isEmpty = false → AvoidsPre p'.reg.pre m.name m.ty = true) :
+    p'.reg.gatherOk = true := by
+  refine gatherOk_of_invariants_pre
+    (SuffixFree_runOps rx ops (wf_suffixFree_of_no_metrics h0).1 (wf_suffixFree_of_no_metrics h0).2 h).2
+    (help_uniform_history rx p p' ops h0 h) ?_ hav
+  rw [pre_runOps rx ops h, ← reg_eq_of_no_metrics h0]
+  exact hp
+
+/-- conversely, on any registry: if the scrape succeeds, every statsd family that has a series is clear of the
+    companion names of every pre-registered family, and vice versa — the suffix clauses of `AvoidsPre` are
+    necessary; the name clause is necessary up to agreement: a pre-registered family of the same name must have the
+    same type (and help string) -/
+theorem scrape_ok_only_if_clear_of_companions (r : Reg V) (h : r.gatherOk = true) :
+    ∀ m ∈ r.metrics, m.series.isEmpty = false → ∀ q ∈ r.pre,
+      q.1 ∉ companionNames m.name m.ty ∧ m.name ∉ companionNames q.1 q.2.1 ∧ (q.1 = m.name → q.2.1 = m.ty) :=
+  fun _ hm he _ hq => clear_of_companions_of_gatherOk h hm he hq
+
 section counterexamples
 attribute [local instance] toyNumOps
 
@@ -360,7 +424,77 @@ theorem no_refutation_without_preregistered :
   rw [scrape_succeeds_without_preregistered noRx p p' ops h0 hpre hrun] at hg
   cases hg
 
+/-! ### with pre-registered families: both kinds of clause of `AvoidsPre` are needed -/
+
+/-- the open finding violates `AvoidsPre`: the statsd counter `x` of `preregistered_name_collision` has the name of
+    the pre-registered family -/
+theorem avoidsPre_violated_by_name_collision :
+    AvoidsPre [(nameX, .counter, strBytes "other")] nameX .counter = false := by with_unfolding_all decide
+
+/-- **pre-registered suffix collision**: a summary family `x` (it exposes `x_sum`, `x_count`) is exposed by a
+    collector registered before; it scrapes fine by itself. The statsd counter `x_sum` is accepted — the companion
+    checks of `getOrCreate` only look at the exporter's own maps — it violates `AvoidsPre` (by a suffix clause only:
+    the names differ), and the scrape fails. So the suffix clauses of `AvoidsPre` are needed too. -/
+theorem preregistered_suffix_collision :
+    ({ metrics := [], pre := [(nameX, .summary, strBytes "other")] } : Reg Int).gatherOk = true ∧
+    AvoidsPre [(nameX, .summary, strBytes "other")] nameXsum .counter = false ∧
+    scrapeAfter { mapper := MState.fresh emptyCfg, reg := { metrics := [], pre := [(nameX, .summary, strBytes "other")] } }
+      [.line [] [ctr nameXsum]] = some false := by
+  refine ⟨?_, ?_, ?_⟩ <;> with_unfolding_all decide
+
+/-- … and the other direction: a pre-registered counter `x_sum` next to the statsd summary `x` (a timer, observers
+    being summaries) -/
+theorem preregistered_suffix_collision' :
+    ({ metrics := [], pre := [(nameXsum, .counter, strBytes "other")] } : Reg Int).gatherOk = true ∧
+    AvoidsPre [(nameXsum, .counter, strBytes "other")] nameX .summary = false ∧
+    scrapeAfter { mapper := MState.fresh emptyCfg, reg := { metrics := [], pre := [(nameXsum, .counter, strBytes "other")] } }
+      [.line [] [obs nameX]] = some false := by
+  refine ⟨?_, ?_, ?_⟩ <;> with_unfolding_all decide
+
 /-! ### Non-vacuity of the positive facts -/
+
+/-- pre-registered: the gauge `go_goroutines` and a summary `s` -/
+private def preTwo : List (Bytes × MType × Bytes) :=
+  [(strBytes "go_goroutines", .gauge, strBytes "h"), (strBytes "s", .summary, strBytes "h")]
+
+/-- (does the scrape succeed, do all metric entries avoid the pre-registered families, the metric names) after the
+    history -/
+private def avoidAfter (p : Pipe Int) (ops : List (PipeOp Int)) : Option (Bool × Bool × List Bytes) :=
+  match runOps noRx p ops with
+  | some (.ok p') =>
+    some (p'.reg.gatherOk, p'.reg.metrics.all (fun m => AvoidsPre p'.reg.pre m.name m.ty), p'.reg.metrics.map (·.name))
+  | _ => none
+
+private theorem avoidAfter_spec {p : Pipe Int} {ops : List (PipeOp Int)} {b : Bool} {ns : List Bytes}
+    (h : avoidAfter p ops = some (b, true, ns)) :
+    ∃ p', runOps noRx p ops = some (.ok p') ∧ p'.reg.gatherOk = b ∧ p'.reg.metrics.map (·.name) = ns ∧
+      ∀ m ∈ p'.reg.metrics, AvoidsPre p'.reg.pre m.name m.ty = true := by
+  unfold avoidAfter at h
+  split at h
+  · rename_i p' hp
+    injection h with h
+    simp only [Prod.mk.injEq] at h
+    exact ⟨p', hp, h.1, h.2.2, List.all_eq_true.mp h.2.1⟩
+  · cases h
+
+/-- **names that avoid the pre-registered families scrape fine**: next to the pre-registered gauge `go_goroutines`
+    and summary `s`, the statsd counters `x` and `s_total` (`s_total` is no companion name of a summary) are
+    registered, both avoid the pre-registered families, and the scrape succeeds -/
+theorem avoiding_names_scrape_fine :
+    AvoidsPre preTwo nameX .counter = true ∧ AvoidsPre preTwo (strBytes "s_total") .counter = true ∧
+    avoidAfter { mapper := MState.fresh emptyCfg, reg := { metrics := [], pre := preTwo } }
+      [.line [] [ctr nameX], .line [] [ctr (strBytes "s_total")]] = some (true, true, [nameX, strBytes "s_total"]) := by
+  refine ⟨?_, ?_, ?_⟩ <;> with_unfolding_all decide
+
+/-- `scrape_succeeds_if_names_avoid_preregistered` is about something: all its hypotheses hold of that history — with
+    pre-registered families, two statsd metrics — and it yields the healthy scrape -/
+example : ∃ p', runOps noRx { mapper := MState.fresh emptyCfg, reg := { metrics := [], pre := preTwo } }
+      [.line [] [ctr nameX], .line [] [ctr (strBytes "s_total")]] = some (.ok p') ∧
+      p'.reg.metrics.map (·.name) = [nameX, strBytes "s_total"] ∧ p'.reg.pre = preTwo ∧ p'.reg.gatherOk = true := by
+  obtain ⟨p', hrun, _, hn, hav⟩ := avoidAfter_spec avoiding_names_scrape_fine.2.2
+  exact ⟨p', hrun, hn, pre_runOps noRx _ hrun,
+    scrape_succeeds_if_names_avoid_preregistered noRx _ p' _ rfl (by with_unfolding_all decide) hrun hav⟩
+
 
 /-- `scrape_succeeds_without_preregistered` is about something: its hypotheses hold of the two-help history, which
     runs to the end and leaves a live family with two vectors -/
